@@ -60,6 +60,10 @@ class CollectionSummaryCache:
         """
         self._cache.update(summaries)
 
+    def clear(self) -> None:
+        """Remove all records from the cache."""
+        self._cache.clear()
+
     def find_summaries(self, keys: Iterable[Any]) -> tuple[dict[Any, CollectionSummary], set[Any]]:
         """Return summary records given a set of keys.
 
